@@ -311,6 +311,13 @@ def get_arg_ctx_ast(
             # A negative number is not a constant node but a sign applied to a constant
             v = node.operand.value
             return dds_hash(-v if isinstance(node.op, ast.USub) else v)
+        elif isinstance(node, (ast.Tuple, ast.List, ast.Dict)):
+            # A container written with constants only has a value that is known here: (1, 2), [1, 3], {'a': 1}.
+            # It gets the hash that the same value gets when it is passed to dds.keep directly.
+            try:
+                return dds_hash(ast.literal_eval(node))
+            except (ValueError, TypeError, SyntaxError, DDSException):
+                return None
         else:
             # Cannot deal with it for the time being
             return None
